@@ -293,16 +293,31 @@ def check_b(case):
     return {}
 
 
+# documents imported before the second pass over the string cases: a round trip must not depend on what the
+# process imported earlier (parsers, resolvers and caches may not be shared between calls)
+EARLIER = ['%YAML 1.2\n---\nstatechart:\n  name: earlier\n  root state:\n    name: r\n    transitions:\n'
+           '      - event: e\n        priority: high\n',
+           '%YAML 1.1\n---\nstatechart:\n  name: earlier\n  root state:\n    name: on\n']
+
+
+def import_earlier():
+    for text in EARLIER:
+        import_from_yaml(text)
+
+
 def work_b(cases):
     out = []
     n = 0
-    for c in cases:
-        r = check_b(c)
-        if r is None:
-            continue
-        n += 1
-        if r:
-            out.append({'pos': c[0], 'string': c[1], 'pos2': c[2], 'string2': c[3], **r})
+    for mode in ('as is', 'after importing other documents'):
+        if mode != 'as is':
+            import_earlier()
+        for c in cases:
+            r = check_b(c)
+            if r is None:
+                continue
+            n += 1
+            if r:
+                out.append({'pos': c[0], 'string': c[1], 'pos2': c[2], 'string2': c[3], 'mode': mode, **r})
     return n, out
 
 
@@ -353,7 +368,7 @@ def run(tier, seed):
                 sig, 'C11 string %r%s at %s%s: %s' % (v['string'], '' if v['string2'] is None else ' and %r' % v['string2'],
                                                      v['pos'], '' if v['pos2'] is None else ' / %s' % (v['pos2'],), v['detail']),
                 {'check': 'C11', 'part': 'b', 'pos': v['pos'], 'string': v['string'], 'pos2': v['pos2'],
-                 'string2': v['string2'], 'detail': v['detail']}))
+                 'string2': v['string2'], 'mode': v['mode'], 'detail': v['detail'] + ' [%s]' % v['mode']}))
     comparisons = sum(r['extra'].get('comparisons', 0) for r in results)
     cov = {
         'programs': agg.programs, 'states': agg.states, 'transitions': agg.transitions,
@@ -366,7 +381,8 @@ def run(tier, seed):
         + [{'position': list(map(str, c[0])), 'string': c[1]} for c in harness.pick_samples(cases, seed, 3)],
         'rule': '(a) all skeletons x {API, YAML}-built with all field kinds populated: round trip, field equality, ==, '
                 'lock-step BFS; (b) every (field position, string) pair over the alphabet + every pair of strings for '
-                'two state names (sibling/child and parent/history); a case is non-trivial when the chart is valid '
+                'two state names (sibling/child and parent/history), each once as is and once after the process has '
+                'imported a %YAML 1.2 and then a %YAML 1.1 document; a case is non-trivial when the chart is valid '
                 '(distinct names) and was round-tripped and compared',
     }
     return harness.finish('C11', tier, seed, 'model_checking', cov, viols, [
@@ -377,6 +393,9 @@ def run(tier, seed):
 
 def replay(data):
     if data.get('part') == 'b':
+        if data.get('mode', 'as is') != 'as is':
+            import_earlier()
+            print('(after importing %d other documents)' % len(EARLIER))
         spec = substitute(tuple(data['pos']), data['string'],
                           tuple(data['pos2']) if data.get('pos2') else None, data.get('string2'))
         sc1, _ = build_api(spec)
